@@ -10,9 +10,9 @@ from concurrent.futures import ThreadPoolExecutor
 from vlib import common
 
 DESIGN = dict(
-    AliasDefaults=True,     # object.go 452-480: decoded default handed into the raw data and extended in place
-    LazyUnsync=True,        # units.go 230-241 / 251-253 / 317-345, object.go 69-74: unsynchronised lazy caches
-    CollideEither=True,     # map.go 115-128, any.go: two raw keys denoting one key, survivor = last iterated
+    AliasDefaults=False,    # object.go 452-480: decoded default handed into the raw data and extended in place
+    LazyUnsync=False,       # units.go 230-241 / 251-253 / 317-345, object.go 69-74: unsynchronised lazy caches
+    CollideEither=False,    # map.go 115-128, any.go: two raw keys denoting one key, survivor = last iterated
     StripInPlace=False,     # oneof.go 431-439 clones before deleting the discriminator
     NoStepMutex=False,      # step.go 200-223 holds initializerMutex
     EnumEarlyReturn=False,  # enum.go: repaired (return nil -> continue)
